@@ -107,9 +107,18 @@ func newVDaemon(t testing.TB, seed uint64, specs []vChainSpec, storage chain.Sto
 }
 
 func (v *vDaemon) close() {
-	ctx, cancel := context.WithTimeout(context.Background(), 5*time.Second)
-	defer cancel()
-	v.dd.Stop(ctx)
+	// a daemon that was wedged by the case (held lock) cannot be stopped: do not let the tear-down hang with it
+	done := make(chan struct{})
+	go func() {
+		ctx, cancel := context.WithTimeout(context.Background(), 5*time.Second)
+		defer cancel()
+		v.dd.Stop(ctx)
+		close(done)
+	}()
+	select {
+	case <-done:
+	case <-time.After(8 * time.Second):
+	}
 	_ = os.RemoveAll(v.dir)
 }
 
